@@ -315,12 +315,15 @@ class TokenizerState:
         self.indents = [0]
         self.last_line = ""
         self.line = ""
+        self.comment_line = False  # the current line holds nothing but a comment (next_statement said so)
+        self.last_comment_line = False  # ... and so did the line before
         self.pos = 0
         self.max = 0
         self.end_progs: list[EndProg] = []
 
     def move_next_line(self, readline: Callable[[], str]) -> None:
         self.last_line = self.line
+        self.last_comment_line, self.comment_line = self.comment_line, False
         try:
             # We capture the value of the line variable here because
             # readline uses the empty string '' to signal end of input,
@@ -431,6 +434,7 @@ def next_statement(state: TokenizerState) -> Generator[TokenInfo, None, bool | N
 
     if state.line[state.pos] in "#\r\n":  # skip comments or blank lines
         if state.line[state.pos] == "#":
+            state.comment_line = True
             comment_token = state.line[state.pos :].rstrip("\r\n")
             yield TokenInfo(
                 Token.COMMENT,
@@ -522,7 +526,8 @@ def next_psuedo_matches(state: TokenizerState) -> TokenInfo | None:
 
 def next_end_tokens(state: TokenizerState) -> Iterator[TokenInfo]:
     # Add an implicit NEWLINE if the input doesn't end in one
-    if state.last_line and state.last_line[-1] not in "\r\n" and not state.last_line.strip().startswith("#"):
+    # (a last line that merely LOOKS like a comment - inside a string, after a continuation - still needs one)
+    if state.last_line and state.last_line[-1] not in "\r\n" and not state.last_comment_line:
         yield TokenInfo(
             Token.NEWLINE,
             "",
